@@ -77,6 +77,9 @@ func C12(env *Env) {
 			if t.Op == flow.OpPhi {
 				alts = t.Args
 			}
+			if t.Op == flow.OpIte {
+				alts = t.Args[1:]
+			}
 			for _, a := range alts {
 				if !(a.IsConst(`"platform"`) || a.IsConst(`"processor"`)) {
 					return false
